@@ -205,6 +205,11 @@ def run(ctx, chk):
     ents = entries(prog)
     chk.floor("R2.1", "public authenticated-open entry points", len(ents), 45)
     analyse(prog, chk, ents)
+    # R2.7: "truncating or extending the input makes the call fail" rests on the padding of the last MAC block: in the one-time
+    # authenticator units no padding store may be overwritten before it is read (E13, peeled paths) - a 0x01 terminator that is
+    # wiped by the zero fill makes M and M || 00 authenticate alike.
+    from .. import deadstore
+    deadstore.dead_store_rule(prog, chk, "R2.7", ("crypto_onetimeauth/",), floor=20)
 
 
 def analyse(prog, chk, ents, prefix="R2", floors=True):
